@@ -1,0 +1,7 @@
+//go:build verif
+
+package kvs
+
+// VerifLockOrder exposes the order in which MultiPut takes the locks of its
+// keys (for the verification harness, see /verif/DESIGN.md, Section 6).
+func VerifLockOrder(pairs []KVPair) []uint64 { return lockOrder(pairs) }
